@@ -23,10 +23,7 @@ pub type Error = AnyhowError;
 //@ const actors/miner/src/monies.rs CONSENSUS_FAULT_FACTOR
 //@ const actors/miner/src/policy.rs CONSENSUS_FAULT_REPORTER_DEFAULT_SHARE
 //@ const actors/miner/src/lib.rs ERR_BALANCE_INVARIANTS_BROKEN
-//@ item actors/miner/src/types.rs WorkerKeyChange
-//@ item actors/miner/src/beneficiary.rs BeneficiaryTerm
-//@ item actors/miner/src/beneficiary.rs PendingBeneficiaryChange
-//@ item actors/miner/src/state.rs MinerInfo
+//@ include units/shared/miner_info.inc
 //@ item actors/miner/src/types.rs ReportConsensusFaultParams
 //@ item runtime/src/builtin/reward/mod.rs ThisEpochRewardReturn
 pub mod ext {
@@ -42,38 +39,6 @@ pub mod ext {
 //@ item actors/miner/src/ext.rs OnMinerSectorsTerminateParams
     }
 }
-impl CborVal for MinerInfo { type Base = MinerInfo; open spec fn base(&self) -> MinerInfo { *self } }
-
-// ---------------- miner info persistence (real functions over the CBOR store stub) ----------------
-pub open spec fn info_of(s: State) -> Option<MinerInfo> { cbor_decode::<MinerInfo>(s.info) }
-
-//@ fn actors/miner/src/state.rs State::get_info
-    ensures r.is_ok() ==> Some(r->Ok_0) == info_of(*self),
-//@ end
-//@ fn actors/miner/src/state.rs State::save_info
-    ensures
-        r.is_ok() ==> info_of(*final(self)) == Some(*info),
-        r.is_err() ==> *final(self) == *old(self),
-        // nothing but the info pointer changes
-        final(self).pre_commit_deposits == old(self).pre_commit_deposits, final(self).locked_funds == old(self).locked_funds,
-        final(self).vesting_funds == old(self).vesting_funds, final(self).fee_debt == old(self).fee_debt,
-        final(self).initial_pledge == old(self).initial_pledge, st_rest_eq_but_info(*old(self), *final(self)),
-//@ end
-pub open spec fn st_rest_eq_but_info(a: State, b: State) -> bool {
-    &&& a.pre_committed_sectors == b.pre_committed_sectors
-    &&& a.pre_committed_sectors_cleanup == b.pre_committed_sectors_cleanup
-    &&& a.allocated_sectors == b.allocated_sectors
-    &&& a.sectors == b.sectors
-    &&& a.proving_period_start == b.proving_period_start
-    &&& a.current_deadline == b.current_deadline
-    &&& a.deadlines == b.deadlines
-    &&& a.early_terminations == b.early_terminations
-    &&& a.deadline_cron_active == b.deadline_cron_active
-}
-//@ fn actors/miner/src/lib.rs get_miner_info
-    ensures r.is_ok() ==> Some(r->Ok_0) == info_of(*state),
-//@ end
-
 // ---------------- small send helpers ----------------
 /// value burnt by this activation: successful plain sends to the burnt-funds actor
 pub open spec fn is_burn(s: SendRec) -> bool { s.to == BURNT_FUNDS_ACTOR_ADDR && s.method == METHOD_SEND }
